@@ -379,6 +379,18 @@ impl Matcher {
                 }
             }
 
+            // Splits take effect after the day's trades, as in the matching pass
+            for tx in &transactions[i..day_end] {
+                let (ratio, unsplit) = match &tx.operation {
+                    Operation::Split { ratio } => (*ratio, false),
+                    Operation::Unsplit { ratio } => (*ratio, true),
+                    _ => continue,
+                };
+                if let Some(ledger) = ledgers.get_mut(&tx.ticker) {
+                    ledger.rescale_quantities(ratio, unsplit);
+                }
+            }
+
             i = day_end;
         }
 
